@@ -6,6 +6,7 @@ import TracklibVerif.Lemmas.SimplifyVwAny
 import TracklibVerif.Lemmas.SimplifyVwTie
 import TracklibVerif.Lemmas.SimplifyVwFirst
 import TracklibVerif.Lemmas.SimplifyOrd
+import TracklibVerif.Lemmas.SimplifyColl
 import Mathlib.Tactic.Ring
 import Mathlib.Analysis.Real.Sqrt
 /-! # C16 — simplification keeps the end points, only drops fixes, and honours its tolerance
@@ -19,7 +20,8 @@ total order with arbitrary arithmetic; `Lemmas/SimplifyGeom.lean`, ordered field
 on the `Track` **object**: feature rows of the observations, feature dict, `uid`/`tid`/`base`, the temporary `'@aire'`
 column, `Track.__add__` and `removeObs` of C04. T8/T9 tie the second to the first. The same file models the attribute
 `no_data_value` that the readers set (`simplifyN`: never read; `None` on a Douglas–Peucker result, copied by Visvalingam) and
-`Network.simplify` (`netSimplify`: `simplify` on every edge geometry). T12 (`vw_any`) is Visvalingam with **no** hypothesis on
+`Network.simplify` (`netSimplify`: `simplify` on every edge geometry) and `TrackCollection.simplify` (`collSimplify`: `simplify` on a
+copy of every track, default mode 1; the entry point repaired by 039f340 — T15 states the property for every track of a collection). T12 (`vw_any`) is Visvalingam with **no** hypothesis on
 the areas. A third model file, `Model/SimplifyTie.lean`, is the freedom the statement leaves to Visvalingam — which of several equally
 small triangles goes first (`VwAnyResult`, `visvalingamAll`): T13 proves the property for **every** such run, that the code's run is
 one of them and that the enumeration the correspondence check accepts is sound (`Lemmas/SimplifyVwTie.lean`). T14
@@ -320,24 +322,70 @@ theorem simplify_nodata (sqrt : α → α) (big tol : α) (T : TrkN α) (mode : 
 i-th geometry of the result is what `simplify` returns for the i-th geometry. Any scalar type. -/
 theorem net_simplify_each (sqrt : α → α) (big tol : α) (mode : Int) (G O : List (TrkN α))
     (h : netSimplify sqrt big G tol mode = .ok O) :
-    List.Forall₂ (fun g o => simplifyN sqrt big g tol mode = .ok o) G O := by
-  unfold netSimplify at h
-  induction G generalizing O with
-  | nil =>
-    simp only [List.mapM_nil, pure, Except.pure, Except.ok.injEq] at h
-    subst h; exact List.Forall₂.nil
-  | cons g G ih =>
-    rw [List.mapM_cons] at h
-    cases hg : simplifyN sqrt big g tol mode with
-    | error e => rw [hg] at h; cases h
-    | ok o =>
-      rw [hg] at h
-      cases hr : G.mapM (fun g => simplifyN sqrt big g tol mode) with
-      | error e => rw [hr] at h; cases h
-      | ok os =>
-        rw [hr] at h
-        cases h
-        exact List.Forall₂.cons hg (ih os hr)
+    List.Forall₂ (fun g o => simplifyN sqrt big g tol mode = .ok o) G O :=
+  mapM_ok_each _ G O h
+
+/-! #### T15: `TrackCollection.simplify(tolerance, mode=1)` (`collSimplify`; the entry point repaired by 039f340) -/
+
+/-- T15 (what the entry point is): `collection.simplify(tolerance, mode)` returns, in the collection's order, what
+`simplify(track, tolerance, mode)` returns for (a deep copy of) every track — as many tracks as the collection has; when it fails,
+it fails with the exception of one of these calls; an empty collection comes back empty whatever the mode; and the default of
+`mode` is `1`, Douglas–Peucker. The model is a function: the caller's collection and tracks are not written. Any scalar type. -/
+theorem coll_simplify_each (sqrt : α → α) (big tol : α) (mode : Int) (C : List (TrkN α)) :
+    (∀ O, collSimplify sqrt big C tol mode = .ok O →
+      List.Forall₂ (fun t o => simplifyN sqrt big t tol mode = .ok o) C O ∧ O.length = C.length) ∧
+    (∀ e, collSimplify sqrt big C tol mode = .error e → ∃ t ∈ C, simplifyN sqrt big t tol mode = .error e) ∧
+    collSimplify sqrt big ([] : List (TrkN α)) tol mode = .ok [] ∧
+    collSimplify sqrt big C tol = collSimplify sqrt big C tol 1 := by
+  refine ⟨fun O h => ?_, fun e h => mapM_error_mem _ C e h, rfl, rfl⟩
+  have := mapM_ok_each _ C O h
+  exact ⟨this, this.length_eq.symm⟩
+
+/-- T15 (modes the dispatcher refuses): on a non-empty collection a mode outside 1 … 8 raises (`NameError`, from the first track). -/
+theorem coll_simplify_invalid_mode (sqrt : α → α) (big tol : α) (m : Int) (hm : m < 1 ∨ 8 < m) (t : TrkN α) (C : List (TrkN α)) :
+    collSimplify sqrt big (t :: C) tol m = .error "NameError" := by
+  have h1 : simplifyN sqrt big t tol m = .error "NameError" := by
+    unfold simplifyN
+    rw [(simplify_dispatch sqrt big tol t.trk).2.2 m hm]
+  unfold collSimplify
+  rw [List.mapM_cons, h1]; rfl
+
+/-- T15, the statement of C16 for **Visvalingam on every track of a collection** (`collection.simplify(tolerance, 2)`; any scalar type,
+any tolerance, any areas): if every track is non-empty and has a well-formed feature table without `'@aire'`, the call succeeds and,
+track by track, the observations returned (feature rows included) are a sub-sequence of the track's, the **last** observation is
+kept, a track of two or more observations keeps at least two, feature dict, `uid`/`tid`/`base` and `no_data_value` are the track's;
+and for every track of ≥ 2 fixes whose triangle areas are below ARGMIN's start value (T6's hypothesis: finite areas) the **first**
+observation is kept too. -/
+theorem coll_simplify_vw (big eps : α) (sqrt : α → α) (C : List (TrkN α))
+    (hC : ∀ t ∈ C, FreshTable t.trk ∧ t.trk.pts ≠ []) :
+    ∃ O, collSimplify sqrt big C eps 2 = .ok O ∧ O.length = C.length ∧
+      List.Forall₂ (fun t o =>
+        o.trk.pts.Sublist t.trk.pts ∧ o.trk.pts.getLast? = t.trk.pts.getLast? ∧
+        (2 ≤ t.trk.pts.length → 2 ≤ o.trk.pts.length) ∧
+        o.trk.dico = t.trk.dico ∧ o.trk.info = t.trk.info ∧ o.nodata = t.nodata ∧
+        (2 ≤ t.trk.pts.length →
+          (∀ a b c, a ∈ fixes t.trk.pts → b ∈ fixes t.trk.pts → c ∈ fixes t.trk.pts → areaFix a b c < big) →
+          o.trk.pts.head? = t.trk.pts.head?)) C O := by
+  obtain ⟨O, hO, hF⟩ := mapM_ok_of_forall (fun t => simplifyN sqrt big t eps 2)
+    (fun t o => o.trk.pts.Sublist t.trk.pts ∧ o.trk.pts.getLast? = t.trk.pts.getLast? ∧
+        (2 ≤ t.trk.pts.length → 2 ≤ o.trk.pts.length) ∧
+        o.trk.dico = t.trk.dico ∧ o.trk.info = t.trk.info ∧ o.nodata = t.nodata ∧
+        (2 ≤ t.trk.pts.length →
+          (∀ a b c, a ∈ fixes t.trk.pts → b ∈ fixes t.trk.pts → c ∈ fixes t.trk.pts → areaFix a b c < big) →
+          o.trk.pts.head? = t.trk.pts.head?)) C (by
+    intro t ht
+    obtain ⟨hf, hne⟩ := hC t ht
+    obtain ⟨T', h, hs, hl, h2⟩ := vw_track_any big eps t.trk hf hne
+    obtain ⟨T'', h', _, _, hd, hi⟩ := vw_track big eps t.trk hf hne
+    rw [h] at h'; cases h'
+    have hs2 : simplify sqrt big t.trk eps 2 = .ok T' := by rw [(simplify_dispatch sqrt big eps t.trk).2.1, h]
+    obtain ⟨o, e1, e2⟩ := (simplify_nodata sqrt big eps t 2).2.1 T' hs2
+    refine ⟨o, e1, ?_⟩
+    rw [e2]
+    exact ⟨hs, hl, h2, hd, hi, (simplify_nodata sqrt big eps t 2).2.2.2.2 o e1,
+      fun h2' hbig => (vw_track_ends big eps t.trk T' hf h2' hbig h).1⟩)
+  refine ⟨O, hO, hF.length_eq.symm, ?_⟩
+  exact hF.imp (fun _ _ h => h.2)
 
 /-! #### T13: the freedom left by ties in Visvalingam (`Model/SimplifyTie.lean`) -/
 
@@ -616,6 +664,44 @@ theorem simplify_nodata_dp_correct (sqrt : α → α) (hs : SqrtOK sqrt) (big ep
   rw [e2]
   exact ⟨a, b, c, d⟩
 
+/-- T15, the statement of C16 for **Douglas–Peucker on every track of a collection** — `collection.simplify(tolerance)`, the default
+mode, or `collection.simplify(tolerance, 1)` — over an ordered field with an exact sqrt: for **every** collection (empty, tracks of 0, 1, 2
+fixes, reader-made tracks with placeholder fixes, closed loops, repeated positions) and every `eps > 0` the call returns as many tracks
+as the collection has and, track by track in the collection's order: the observations returned (feature rows included) are a
+sub-sequence of the track's, the first and the last observation are kept, `no_data_value` of the new `Track` is `None`, and for a
+track of ≥ 2 fixes every input fix is within `eps` of a segment between two consecutive vertices of the returned polyline. -/
+theorem coll_simplify_dp_correct (sqrt : α → α) (hs : SqrtOK sqrt) (big eps : α) (heps : 0 < eps) (C : List (TrkN α)) :
+    ∃ O, collSimplify sqrt big C eps = .ok O ∧ O.length = C.length ∧
+      List.Forall₂ (fun t o =>
+        o.nodata = none ∧ o.trk.pts.Sublist t.trk.pts ∧ o.trk.pts.head? = t.trk.pts.head? ∧
+        o.trk.pts.getLast? = t.trk.pts.getLast? ∧
+        (2 ≤ t.trk.pts.length → ∀ p ∈ t.trk.pts, ∃ a b, [a, b] <:+: fixes o.trk.pts ∧
+          ∃ u, 0 ≤ u ∧ u ≤ 1 ∧ q2 p.fix.x p.fix.y a.x a.y b.x b.y u ≤ eps * eps)) C O := by
+  obtain ⟨O, hO, hF⟩ := mapM_ok_of_forall (fun t => simplifyN sqrt big t eps 1)
+    (fun t o => o.nodata = none ∧ o.trk.pts.Sublist t.trk.pts ∧ o.trk.pts.head? = t.trk.pts.head? ∧
+        o.trk.pts.getLast? = t.trk.pts.getLast? ∧
+        (2 ≤ t.trk.pts.length → ∀ p ∈ t.trk.pts, ∃ a b, [a, b] <:+: fixes o.trk.pts ∧
+          ∃ u, 0 ≤ u ∧ u ≤ 1 ∧ q2 p.fix.x p.fix.y a.x a.y b.x b.y u ≤ eps * eps)) C (by
+    intro t _
+    obtain ⟨out, h⟩ := dp_total sqrt hs eps heps (fixes t.trk.pts)
+    have hp := dp_track_points sqrt eps t.trk
+    rw [h] at hp
+    cases hT : dpTrk sqrt eps t.trk with
+    | none => rw [hT] at hp; cases hp
+    | some T' =>
+      rw [hT] at hp
+      simp only [Option.map_some, Option.some.injEq] at hp
+      obtain ⟨a, b, c, _⟩ := dp_track_obs sqrt eps t.trk T' hT
+      have hs1 : simplify sqrt big t.trk eps 1 = .ok T' := by rw [(simplify_dispatch sqrt big eps t.trk).1, hT]
+      obtain ⟨o, e1, e2⟩ := (simplify_nodata sqrt big eps t 1).2.1 T' hs1
+      refine ⟨o, e1, (simplify_nodata sqrt big eps t 1).2.2.2.1 o e1, ?_⟩
+      rw [e2]
+      refine ⟨a, b, c, fun h2 p hpm => ?_⟩
+      rw [hp]
+      exact dp_tolerance sqrt hs eps (fixes t.trk.pts) out h (by simpa [fixes] using h2) p.fix (List.mem_map.mpr ⟨p, hpm, rfl⟩))
+  refine ⟨O, hO, hF.length_eq.symm, ?_⟩
+  exact hF.imp (fun _ _ h => h.2)
+
 end orderedField
 
 /-! ### the hypotheses are satisfiable -/
@@ -777,6 +863,36 @@ example : simplifyN sqrtTab2 (10 ^ 300) demoTrkN 3 2 =
 
 /-- `Network.simplify` on two edges -/
 example : (netSimplify sqrtTab2 (10 ^ 300) [demoTrkN, demoTrkN] 3 2).map List.length = .ok 2 := by decide +kernel
+
+/-- `TrackCollection.simplify` on two tracks, default mode (Douglas–Peucker, tolerance 3): two new tracks, the placeholder first fix
+kept, `no_data_value` None … -/
+example : collSimplify sqrtTab2 (10 ^ 300) [demoTrkN, demoTrkN] 3 =
+    .ok [⟨⟨[⟨⟨0, -4, -4⟩, []⟩, ⟨⟨2, 0, -1⟩, []⟩], ⟨0, 7, none⟩, []⟩, none⟩,
+         ⟨⟨[⟨⟨0, -4, -4⟩, []⟩, ⟨⟨2, 0, -1⟩, []⟩], ⟨0, 7, none⟩, []⟩, none⟩] := by decide +kernel
+
+/-- … Visvalingam keeps the copies' attribute; a one-fix track and a two-fix track in the collection come back as they are
+(the hypotheses of `coll_simplify_vw` hold for them) … -/
+example : collSimplify sqrtTab2 (10 ^ 300) [demoTrkN, ⟨⟨[⟨⟨0, 1, 1⟩, []⟩], ⟨1, 2, none⟩, []⟩, none⟩,
+      ⟨⟨[⟨⟨0, 1, 1⟩, []⟩, ⟨⟨1, 2, 1⟩, []⟩], ⟨3, 4, none⟩, []⟩, some 5⟩] 3 2 =
+    .ok [⟨⟨[⟨⟨0, -4, -4⟩, []⟩, ⟨⟨2, 0, -1⟩, []⟩], ⟨0, 7, none⟩, []⟩, some (-4)⟩, ⟨⟨[⟨⟨0, 1, 1⟩, []⟩], ⟨1, 2, none⟩, []⟩, none⟩,
+         ⟨⟨[⟨⟨0, 1, 1⟩, []⟩, ⟨⟨1, 2, 1⟩, []⟩], ⟨3, 4, none⟩, []⟩, some 5⟩] := by decide +kernel
+
+example : ∀ t ∈ [demoTrkN, ⟨⟨[⟨⟨0, 1, 1⟩, []⟩], ⟨1, 2, none⟩, []⟩, none⟩], FreshTable t.trk ∧ t.trk.pts ≠ [] := by
+  intro t ht
+  simp only [List.mem_cons, List.not_mem_nil, or_false] at ht
+  rcases ht with rfl | rfl <;> exact ⟨⟨by decide +kernel, by decide +kernel, by decide +kernel⟩, by decide +kernel⟩
+
+/-- … an empty track stops Visvalingam (`AnalyticalFeatureError` from `addAnalyticalFeature`), and with it the whole call — the
+hypothesis `t.trk.pts ≠ []` of `coll_simplify_vw` cannot be dropped —; Douglas–Peucker returns it … -/
+example : collSimplify sqrtTab2 (10 ^ 300) [demoTrkN, ⟨⟨[], ⟨0, 0, none⟩, []⟩, none⟩] 3 2 = .error "AnalyticalFeatureError" := by
+  decide +kernel
+
+example : (collSimplify sqrtTab2 (10 ^ 300) [demoTrkN, ⟨⟨[], ⟨0, 0, none⟩, []⟩, none⟩] 3).map List.length = .ok 2 := by
+  decide +kernel
+
+/-- … an invalid mode raises on a non-empty collection and goes unnoticed on an empty one -/
+example : collSimplify sqrtTab2 (10 ^ 300) [demoTrkN] 3 0 = .error "NameError" ∧
+    collSimplify sqrtTab2 (10 ^ 300) ([] : List (TrkN Rat)) 3 0 = .ok [] := by decide +kernel
 
 /-- T12 at work outside T6's hypothesis (`big = 1`, the only area is 8): the first observation is lost (T6'), the last one and two
 observations are kept -/
